@@ -66,10 +66,6 @@ def handle (op : String) (args : List String) : String :=
     match bool? k, path? p with
     | some k, some p => pathWire (normalize k p)
     | _, _ => "bad-args"
-  | "H", [k, p] =>
-    match bool? k, path? p with
-    | some k, some p => toString (H15 k p)
-    | _, _ => "bad-args"
   | "genp", [folder, sources, proj, found, current] =>
     match hexToChars? folder, list? entry? sources, path? proj, path? found, path? current with
     | some folder, some sources, some proj, some found, some current =>
